@@ -192,3 +192,46 @@ Proof. intros Hv Hn. pose proof (fdecode_fencode 23 8 ltac:(lia) ltac:(lia) y Hv
 Lemma fdecode64_fencode y : valid_binary 53 1024 y = true -> y <> S754_nan -> fdecode 52 11 (fencode 52 11 y) = y.
 Proof. intros Hv Hn. pose proof (fdecode_fencode 52 11 ltac:(lia) ltac:(lia) y Hv Hn) as [HH _]. exact HH. Qed.
 
+(** pattern -> value -> pattern is the identity on non-NaN patterns of the right width *)
+Section Format3.
+Variables mw ew : Z.
+Hypothesis Hmw : 0 < mw.
+Hypothesis Hew : 1 < ew.
+
+Lemma fencode_fdecode bits : 0 <= bits < 2 ^ (mw + ew + 1) -> fdecode mw ew bits <> S754_nan ->
+  fencode mw ew (fdecode mw ew bits) = bits.
+Proof.
+  intros Hb Hn.
+  assert (HP : 0 < 2 ^ mw) by (apply Z.pow_pos_nonneg; lia).
+  assert (HQ : 0 < 2 ^ ew) by (apply Z.pow_pos_nonneg; lia).
+  pose proof (pow_ew mw ew Hew) as Hpe. pose proof (emax_ge2 mw ew Hew) as He2.
+  set (M := bits mod 2 ^ mw). set (q := bits / 2 ^ mw). set (E := q mod 2 ^ ew). set (sb := q / 2 ^ ew).
+  assert (Hbits : bits = sb * 2 ^ (mw + ew) + E * 2 ^ mw + M).
+  { rewrite Z.pow_add_r by lia. unfold sb, E, M, q.
+    pose proof (Z.div_mod bits (2 ^ mw) ltac:(lia)). pose proof (Z.div_mod (bits / 2 ^ mw) (2 ^ ew) ltac:(lia)). nia. }
+  assert (HM : 0 <= M < 2 ^ mw) by (apply Z.mod_pos_bound; lia).
+  assert (HE : 0 <= E < 2 ^ ew) by (apply Z.mod_pos_bound; lia).
+  assert (Hsb : 0 <= sb <= 1).
+  { unfold sb, q. rewrite Z.div_div by lia. rewrite <- Z.pow_add_r by lia.
+    split; [apply Z.div_pos; [lia|apply Z.pow_pos_nonneg; lia]|].
+    assert (bits / 2 ^ (mw + ew) < 2); [|lia]. apply Z.div_lt_upper_bound; [apply Z.pow_pos_nonneg; lia|].
+    replace (mw + ew + 1) with (1 + (mw + ew)) in Hb by lia. rewrite Z.pow_add_r in Hb by lia. change (2 ^ 1) with 2 in Hb. lia. }
+  clearbody sb E M. clear q. rewrite Hbits in Hn |- *. rewrite fdecode_fields in Hn |- * by (try assumption; lia). cbv zeta in *.
+  assert (Hsg : signbit mw ew (sb =? 1) = sb * 2 ^ (mw + ew)).
+  { unfold signbit. destruct (Z.eqb_spec sb 1) as [H1|H1]; [rewrite H1; lia|]. assert (H0 : sb = 0) by lia. rewrite H0. lia. }
+  destruct (Z.eqb_spec E 0) as [E0|E0].
+  - rewrite E0. destruct M as [|p|p] eqn:EM; [| |lia]; unfold fencode; rewrite Hsg; [lia|].
+    destruct (Z.ltb_spec (Z.pos p) (2 ^ mw)); lia.
+  - destruct (Z.eqb_spec E (2 ^ ew - 1)) as [E1|E1].
+    + destruct (Z.eqb_spec M 0) as [M0|M0]; [|congruence]. unfold fencode. rewrite Hsg, E1, M0. lia.
+    + destruct (M + 2 ^ mw) as [|p|p] eqn:EM; [lia| |lia]. unfold fencode. rewrite Hsg.
+      destruct (Z.ltb_spec (Z.pos p) (2 ^ mw)); [lia|]. lia.
+Qed.
+End Format3.
+
+Lemma lor_pow2_neq0 k a : 0 <= k -> 0 <= a -> Z.lor (2 ^ k) a <> 0.
+Proof.
+  intros Hk Ha E. assert (H : Z.testbit (Z.lor (2 ^ k) a) k = true) by (rewrite Z.lor_spec, Z.pow2_bits_true by lia; reflexivity).
+  rewrite E in H. rewrite Z.bits_0 in H. discriminate.
+Qed.
+
